@@ -292,6 +292,14 @@ func (w *world) execMore(op M) bool {
 			}
 		}
 		ec.AddErrorList(list)
+		// the caller's list is a scratch list: it is overwritten as soon as the call returns (a container that
+		// adopted the slice instead of copying its elements now reports errors nobody raised)
+		// (only a list this driver built itself: the list of another container belongs to that container)
+		if _, other := op["from"]; !other {
+			for i := range list {
+				list[i] = &idErr{"SCRATCH-OVERWRITTEN"}
+			}
+		}
 	case "setprop":
 		ref := opMap(op, "owner")
 		if opStr(ref, "kind") == "column" && w.table(opInt(ref, "t")).Column(opInt(ref, "n")) == nil {
